@@ -97,7 +97,7 @@ def check(rspec, stats=None):
         on = any(bool(np.any((p == lb) | (p == ub))) for p in pts)
         stats.case(rspec, nit >= 1 and on and bool(np.any(np.isfinite(lb) | np.isfinite(ub))),
                    [f"jac={mode}", f"nit={'0' if nit == 0 else '1-5' if nit <= 5 else '6+'}", f"onbound={on}",
-                    f"family={rspec['problem']['obj'].get('bench', rspec['problem']['obj']['family'])}", f"x0_dtype={rspec.get('x0_dtype', 'float64')}"])
+                    f"family={rspec['problem']['obj'].get('bench', rspec['problem']['obj']['family'])}", f"x0_dtype={str(over['x0'].dtype) if 'x0' in over else 'float64'}"])
 
 
 def check_nested(spec, stats=None):
